@@ -786,6 +786,35 @@ def h_mvref(orig: Any, self: Any, x: Any) -> Any:
     return y
 
 
+def h_call(orig: Any, self: Any, x: Any) -> Any:
+    """op(x) must return exactly what op.mv(x) returns (same tree, shapes, dtypes, values)."""
+    y = orig(self, x)
+    if not type(self).__module__.startswith('furax.') or is_tracer(x) or is_tracer(y):
+        return y
+    mon = 'call.consistency'
+
+    def judge() -> None:
+        ref = self.mv(x)
+        LOG.evaluated(mon)
+        la, ta = jax.tree.flatten(y)
+        lb, tb = jax.tree.flatten(ref)
+        same = ta == tb and all(a.shape == b.shape and a.dtype == b.dtype and np.array_equal(np.asarray(a), np.asarray(b), equal_nan=True)
+                                for a, b in zip(la, lb))
+        if not same:
+            prop = getattr(_call_prop, 'value', 'C04')
+            LOG.violation(prop, mon, f'{type(self).__name__}.__call__/differs-from-mv', 'op(x) is not op.mv(x)', expr=dense.describe(self),
+                          call=[f'{a.dtype}{list(a.shape)}' for a in la], mv=[f'{b.dtype}{list(b.shape)}' for b in lb])
+    guarded(mon, judge)
+    return y
+
+
+class _CallProp:
+    value = 'C04'
+
+
+_call_prop = _CallProp()
+
+
 def h_init(orig: Any, self: Any, *args: Any, **kwargs: Any) -> Any:
     from .core import record_client_args, unwrap
 
@@ -818,6 +847,8 @@ def install() -> dict[str, int]:
         if wrap(cls, 'mv', 'mvref', h_mvref):
             counts['methods'] += 1
         if wrap(cls, '__init__', 'ctor', h_init):
+            counts['methods'] += 1
+        if wrap(cls, '__call__', 'mvref', h_call):
             counts['methods'] += 1
     binary, nary = all_rule_classes()
     for rc in binary:
